@@ -621,7 +621,7 @@ def run(chk, P):
              'rest of the list to vorbis_comment_clear / vorbis_info_clear')
     from rules import c13
     c13.r13_14(common.Proxy(chk, 'R02.12'), P, rule='R02.12')
-    chk.floor('R02.12', 7)
+    chk.floor('R02.12', 4)
     chk.floor('R02.9', 3)
     D = k4dec.decode_driver(P)
     r02_1(chk, P, D)
